@@ -1125,6 +1125,44 @@ func (ev *SpecEnv) callExpr(x *ast.CallExpr) (Val, types.Type) {
 		return Scalar{t}, nil
 	}
 	// user-defined spec functions
+	if rf, ok := ev.ex.P.CS.RecFuns[name]; ok {
+		// a recursive spec function: an application of the SMT function defined (once per verified function) from
+		// its body; a byte-slice argument is passed as (contents, offset, length)
+		if len(rf.Params) != argc {
+			ev.fail("recursive spec function %s expects %d args", name, len(rf.Params))
+		}
+		var args []*Term
+		for i := range rf.Params {
+			v, _ := ev.eval(x.Args[i])
+			if rf.PTypes[i] == "[]byte" {
+				sv, ok := v.(SliceV)
+				if !ok || sv.Region == nil {
+					ev.fail("%s: argument %d must be a byte slice", name, i+1)
+				}
+				args = append(args, ev.heapMem(sv.Region), sv.Off, sv.Len)
+				continue
+			}
+			pt := basicTypeByName(rf.PTypes[i])
+			if pt == nil {
+				ev.fail("%s: unsupported parameter type %s", name, rf.PTypes[i])
+			}
+			if u, isU := v.(UConst); isU {
+				v = Scalar{ev.ex.intConst(u.V, pt)}
+			}
+			args = append(args, ev.scalar(v, x.Args[i]))
+		}
+		rs := BoolSort
+		var rt types.Type = types.Typ[types.Bool]
+		if rf.Result != "bool" {
+			rt = basicTypeByName(rf.Result)
+			if rt == nil {
+				ev.fail("%s: unsupported result type %s", name, rf.Result)
+			}
+			rs = ev.ex.intSort(rt)
+		}
+		ev.ex.defineRecFun(rf, rs)
+		return Scalar{App(name, rs, args...)}, rt
+	}
 	if sf, ok := ev.ex.P.CS.SpecFuns[name]; ok {
 		if len(sf.Params) != argc {
 			ev.fail("spec function %s expects %d args", name, len(sf.Params))
@@ -1473,4 +1511,56 @@ func (ex *Exec) unfoldBeval(bt, mem, off, ln *Term) {
 		ranges = append(ranges, Implies(ILt(IntC(int64(k)), ln), And(IGe(sel, IntC(0)), ILe(sel, IntC(255)))))
 	}
 	ex.Assumes = append(ex.Assumes, Implies(And(IGe(ln, IntC(0)), ILe(ln, IntC(int64(n)))), And(append(ranges, Eq(bt, sum))...)))
+}
+
+// defineRecFun emits (once per verified function) the SMT definition of a recursive spec function:
+//
+//	(define-fun-rec name ((p!mem (Array ..)) (p!off Idx) (p!len Idx) (i Sort) ...) Result body)
+//
+// The body is the spec expression evaluated over symbolic parameters; calls of the function inside its own body
+// become applications (the use-site code above).
+func (ex *Exec) defineRecFun(rf *RecFun, rs Sort) {
+	key := "1rf_" + rf.Name
+	if _, done := ex.Funs[key]; done {
+		return
+	}
+	ex.Funs[key] = "" // in progress (recursive calls while the body is built)
+	st := &State{Cells: map[*Cell]Val{}, Mem: map[*Region]*Term{}, Maps: map[*Cell]*MapState{}, Ghost: map[string]*Term{}}
+	st.Big = Sym("heap0", ArraySort(IntSort, IntSort))
+	vars := map[string]Val{}
+	vtypes := map[string]types.Type{}
+	var decl []string
+	byteT := types.Typ[types.Uint8]
+	for i, p := range rf.Params {
+		if rf.PTypes[i] == "[]byte" {
+			r := ex.newRegion("rf_"+rf.Name+"_"+p, byteT, -1)
+			mem := Sym("rf!"+p+"!mem", ex.regionSort(byteT))
+			off := Sym("rf!"+p+"!off", ex.idxSort())
+			ln := Sym("rf!"+p+"!len", ex.idxSort())
+			st.Mem[r] = mem
+			vars[p] = SliceV{Elem: byteT, Region: r, Off: off, Len: ln, Cap: ln}
+			vtypes[p] = types.NewSlice(byteT)
+			decl = append(decl, fmt.Sprintf("(%s %s) (%s %s) (%s %s)", mem.Name, mem.S, off.Name, off.S, ln.Name, ln.S))
+			continue
+		}
+		pt := basicTypeByName(rf.PTypes[i])
+		if pt == nil {
+			ex.reject("recfun %s: unsupported parameter type %s", rf.Name, rf.PTypes[i])
+		}
+		s := Sym("rf!"+p, ex.intSort(pt))
+		vars[p] = Scalar{s}
+		vtypes[p] = pt
+		decl = append(decl, fmt.Sprintf("(%s %s)", s.Name, s.S))
+	}
+	nDefs := len(ex.Defs)
+	env := &SpecEnv{ex: ex, st: st, vars: vars, vtypes: vtypes, contract: ex.C}
+	if ex.Fn != nil && ex.Fn.Pkg != nil {
+		env.pkg = ex.Fn.Pkg.Pkg
+	}
+	bv, _ := env.eval(rf.Expr)
+	body := env.scalar(bv, rf.Expr)
+	if len(ex.Defs) != nDefs {
+		ex.reject("recfun %s: the body introduces auxiliary definitions (not a pure expression)", rf.Name)
+	}
+	ex.Funs[key] = fmt.Sprintf("(define-fun-rec %s (%s) %s %s)", rf.Name, strings.Join(decl, " "), rs, body.String())
 }
